@@ -35,6 +35,7 @@ TB = [
 BIN = ["||", "&&", "|", "^", "&", "==", "!=", "<", ">", "<=", ">=", "<<", ">>", "+", "-", "*"]
 ATOMS = [("RsV", "reg"), ("RtV", "reg"), ("RddV", "reg"), ("PuV", "reg"), ("NsN", "new_reg"), ("PtN", "new_reg"), ("siV", "imm"), ("UiV", "imm"),
          ("0x10", "number"), ("7", "number"), ("1ULL", "number"), ("a", "identifier"), ("b", "identifier"), ("tmp", "identifier"), ("EA", "identifier"),
+         ("mask_t", "identifier"), ("idx_t", "identifier"), ("int_x", "identifier"),
          ("P0", "explicit_reg"), ("R31", "explicit_reg"), ("P1_NEW", "explicit_reg"), ("HEX_REG_ALIAS_SP", "reg_alias"), ("HEX_REG_ALIAS_LR_NEW", "reg_alias")]
 TYPES = ["int32_t", "uint8_t", "size4u_t", "int", "unsigned"]
 AMBIG = ["{ a = 1; { b = 1; } ; }", "{ a = b---c; }", "{ if (a) if (b) RdV = 1; else RdV = 2; }", "{ RdV = RsV&&RtV; }", "{ RdV = a & b && c; }",
@@ -319,6 +320,13 @@ STMT_DIRECTED = [_T(x) for x in [
     "{ RdV = ( { int x = 1 ; x ; } ) + 1 ; }", "{ RdV = ( { a ; } ) ; }", "{ RdV = ( { { a ; } ; b ; } ) ; }",
     "{ if ( ( { a ; } ) ) RdV = ( { if ( a ) b = 1 ; else b = 2 ; b ; } ) ; }",
     "{ if ( a ) ; }", "{ if ( a ) ; else ; }", "{ if ( a ) - b ; }", "{ for ( a ; b ; tmp ) - b ; }",   # reserved words taken as identifiers
+    # a statement that ends in a compound statement, followed by an expression statement starting with an operator that is unary
+    # and binary: two statements, the block is not an operand
+    "{ if ( a ) { RdV = 1 ; b = 2 ; } - b ; }", "{ if ( a ) { RdV = 1 ; } else { b = 2 ; } - b ; }", "{ for ( a = 0 ; a < 4 ; a ++ ) { RdV += a ; } + b ; }",
+    "{ { RdV = 1 ; } - b ; }", "{ a = 0 ; if ( a ) { RdV = 1 ; } - b * 2 ; }", "{ a = 0 ; { RdV = 1 ; } + b ; tmp = 1 ; }",
+    "{ if ( a ) { RdV = 1 ; } ~ b ; }", "{ if ( a ) { RdV = 1 ; } ! b ; }",
+    # declarations whose declarator is named like a type
+    "{ int32_t mask_t ; mask_t = 1 ; }", "{ int idx_t = 2 ; RdV = ( idx_t ) - 1 ; }", "{ uint8_t int_x ; int_x = ( mask_t ) + 1 ; }",
     "{ JUMP ( a ) ; }", "{ if ( a ) JUMP ( b ) ; }", "{ if ( a ) JUMP ( b ) ; else RdV = 1 ; }", "{ if ( a ) { JUMP ( b ) ; } RdV = 1 ; }",
 ]]
 
@@ -553,6 +561,11 @@ def run(tier: str, replay=None) -> int:
         for o in ("+", "-", "*", "&", "|", "<<", "==", "&&"):
             for o2 in ("-", "~", "!"):
                 cases.append([("atom", "a"), ("op", o), "lp", ("ty", ty), "rp", ("op", o2), ("atom", "b")])
+    # a local whose name ends in `_t` is an identifier, not a type: `(mask_t) - b` is a subtraction
+    for nm in ("mask_t", "idx_t", "int_x"):
+        for o in ("-", "+", "*", "&", "<<"):
+            cases.append(["lp", ("atom", nm), "rp", ("op", o), ("atom", "b")])
+            cases.append([("atom", "a"), ("op", "*"), "lp", ("atom", nm), "rp", ("op", o), ("atom", "b")])
     n_directed = len(cases)
     for _ in range(n):
         tl = []
